@@ -343,11 +343,13 @@ def leg (c : Cfg) (n : Nat) (s : St) (created : List Nat) (waits : List (List Na
 
 /-! ## the coherence invariant, as a decidable check (used by the theorems and evaluated by the driver) -/
 
-/-- mediator stage ↔ worker program counter ↔ pipe contents, and: a stored out-state belongs to an idle handler
+/-- mediator stage ↔ worker program counter ↔ pipe contents (a handler that was trashed while `suspended` is `idle` for
+the mediator while its worker stays blocked in the second `wait()`; the next start event takes the `continue` branch
+there), and: a stored out-state belongs to an idle handler
 and was computed from the in-state the worker holds -/
 def HS.coh (x : HS) : Bool :=
   (match x.stage with
-    | .idle => decide (x.pc = .idle ∧ x.chan = [])
+    | .idle => decide ((x.pc = .idle ∨ x.pc = .suspended) ∧ x.chan = [])
     | .timeStarted =>
         decide ((x.pc = .computingTime ∧ x.chan = []) ∨ (x.pc = .suspended ∧ x.chan = [.time x.tag]))
     | .suspended => decide (x.pc = .suspended ∧ x.chan = [])
